@@ -13,6 +13,7 @@ import copy
 import json
 import os
 import sys
+import time
 
 from harness import common, tlc
 from harness import c06_init as ci
@@ -106,8 +107,8 @@ def canaries(traces):
                 r = c["rows"][1]
                 d = 50000           # 0.05 in fixed point, far above eps
                 if clause == "MonotoneS":
-                    r[1] += d
-                    r[2] -= d
+                    r[1] = c["rows"][0][1] + d
+                    r[2] = c["N"] - r[1] - r[3]
                 elif clause == "Conserved":
                     r[2] += d
                 elif clause == "Grid":
@@ -226,6 +227,7 @@ def main(argv=None):
     for n_ in dnotes:
         chk.note(n_)
 
+    t0 = time.time()
     # ---- TLC: InitCond over the whole family, CompartmentFlow exhaustive ------------------------------
     scen_all, res_a = ci.run_initcond(fam["maxn"], fam["rhos"])
     chk.add_tlc("InitCond all labelled graphs on 2..%d nodes, rho in %s" % (fam["maxn"], fam["rhos"]), res_a)
@@ -264,8 +266,12 @@ def main(argv=None):
     sel_b = pick_fixed([(nall + j, sc) for j, sc in enumerate(scen_fix)], fam["per_graph"])
     chk.part("replayed scenarios", part_a=len(sel_a), part_b=len(sel_b), emitted=len(ci.SCEN))
 
-    tasks = tasks_part_a(sel_a) + tasks_part_b(sel_b, fam["rates"])
+    ta, tbb = tasks_part_a(sel_a), tasks_part_b(sel_b, fam["rates"])
+    tasks = ta + tbb
+    t1 = time.time()
     results = run_tasks(tasks)
+    t2 = time.time()
+    print("C06: TLC (InitCond x2, CompartmentFlow) %.0fs; %d + %d calls into the code %.0fs" % (t1 - t0, len(ta), len(tbb), t2 - t1))
 
     # ---- collect -------------------------------------------------------------------------------------
     exercised = {}
@@ -306,6 +312,7 @@ def main(argv=None):
             a = agg.coverage.get(k, (0, 0))
             agg.coverage[k] = (a[0] + v[0], a[1] + v[1])
     chk.add_tlc("TraceCompartmentFlow %d traces in %d concurrent TLC runs" % (len(batch), len(tres)), agg)
+    print("C06: %d traces validated by TLC in %.0fs" % (len(batch), time.time() - t2))
     for a in ("Step", "Done"):
         if agg.coverage.get(a, (0, 0))[0] == 0:
             raise common.MachineryFailure("vacuous trace validation: %s never taken" % a)
